@@ -1,43 +1,53 @@
 ------------------------------ MODULE InterpMC ------------------------------
-(* B1 for C34 (exact, linear mode): every grid of MinN..MaxN points drawn from   *)
-(* the dyadic set {Step/S, 2 Step/S, ..., 1} x every degree in Degrees           *)
-(* (InitGrids: seeds (two smallest points, degree) fan out to all grids in Next  *)
-(* so that the 16 workers share the evaluation); and (InitRaw) every short raw   *)
-(* point list (unsorted, repeated points, too few points) x degree 0..3 for the  *)
-(* rejection clause.                                                             *)
+(* B1 for C34 (exact, linear mode): for every family <<step, maxn, degrees>> every *)
+(* grid of 2..maxn points drawn from the dyadic pool {step/S, 2 step/S, ..., 1} x  *)
+(* every degree of the family (InitGrids: seeds (two smallest points, degree) fan  *)
+(* out to all grids in Next so that the workers share the evaluation); and        *)
+(* (InitRaw) every raw point list of 1-4 points from {1/4..1} (unsorted, repeated *)
+(* points, too few points) x degree 0..3 for the rejection clause.                *)
 EXTENDS Interp
-CONSTANTS S, Step, MinN, MaxN, Degrees
-VARIABLES phase, raw, deg
-vars == <<phase, raw, deg>>
+CONSTANTS S,          \* common denominator of the pool
+          Families    \* set of <<step, maxn, degrees>>: grids of 2..maxn points from the
+                      \* pool {step/S, 2 step/S, .., 1} x every degree of the set
+VARIABLES phase, raw, deg, fam
+
+(* family sets substituted for Families in the configurations                     *)
+FamQuick == {<<2, 5, {1, 2, 3, 4}>>, <<1, 3, {1, 2}>>}
+FamFull == {<<2, 6, {4}>>, <<1, 6, {1, 2, 3}>>}
+FamGuard == {<<4, 4, {1, 2, 3}>>}
+vars == <<phase, raw, deg, fam>>
 
 Asc(s) == Eager([k \in 1..Cardinality(s) |->
              CHOOSE e \in s : Cardinality({x \in s : x < e}) = k - 1])
-Pool == {k \in 1..S : k % Step = 0}
+Pool(step) == {k \in 1..S : k % step = 0}
 InitGrids ==
   /\ phase = "seed"
-  /\ deg \in Degrees
-  /\ \E a, b \in Pool : a < b /\ raw = <<a, b>>
+  /\ fam \in Families
+  /\ deg \in fam[3]
+  /\ \E a, b \in Pool(fam[1]) : a < b /\ raw = <<a, b>>
 NextGrids ==
   /\ phase = "seed"
   /\ phase' = "grid"
-  /\ deg' = deg
-  /\ \E s \in SUBSET {k \in Pool : k > raw[2]} :
+  /\ deg' = deg /\ fam' = fam
+  /\ \E s \in SUBSET {k \in Pool(fam[1]) : k > raw[2]} :
         LET full == {raw[1], raw[2]} \cup s
             a == Asc(full)
-        IN /\ Cardinality(full) >= MinN /\ Cardinality(full) <= MaxN
+        IN /\ Cardinality(full) <= fam[2]
            /\ Cardinality(full) > deg
            /\ raw' = [k \in 1..Cardinality(full) |-> RFrac(a[k], S)]
 InitRaw ==
   /\ phase = "rawseed"
+  /\ fam = <<0, 0, {}>>
   /\ deg \in 0..3
   /\ raw \in [1..1 -> 1..4]
 NextRaw ==
   /\ phase = "rawseed"
   /\ phase' = "grid"
-  /\ deg' = deg
+  /\ deg' = deg /\ fam' = fam
   /\ \E tail \in UNION {[1..k -> 1..4] : k \in 0..3} :
         raw' = [k \in 1..(1 + Len(tail)) |-> RFrac(IF k = 1 THEN raw[1] ELSE tail[k - 1], 4)]
 
+InitAll == InitGrids \/ InitRaw
 Next == NextGrids \/ NextRaw
 
 Mid(gg) == LET pp == EvalSet(gg) IN Eager([e \in 1..(Len(gg) - 1) |-> pp[2 * e]])
